@@ -248,7 +248,7 @@ static void p0_run(uint64_t idx, vh_rng_t * rng) {
     static vh_buf_t msg;
     vh_ctx_t * v; int i, j, consumed = 0, fail = 0, exp_codes[3], nexp = 0, exp_any_of = 0, want_err = 0;
     int step_expect[VH_MAX_STEPS]; /* 1 ok, 0 fail, 2 absent, -1 unknown */ int step_item[VH_MAX_STEPS];
-    int unknown = 0; char key[160]; const char * q = ""; size_t termlen = 1;
+    int unknown = 0; char key[160]; const char * q = ""; size_t termlen = 1; int prefilled = 0;
     scpi_bool_t ret; const vh_inv_t * inv;
     (void) idx;
     active_tab = (int) vh_below(rng, 2);
@@ -295,7 +295,12 @@ static void p0_run(uint64_t idx, vh_rng_t * rng) {
     }
     (void) exp_any_of;
 
-    v = vh_ctx_new(cmds, 4200, 8, 128); v->log_enabled = 0; v->sigs = &sig; v->nsigs = 1;
+    /* the state of the error queue when the unit arrives is history the statement quantifies away: one case in five meets a queue of 1..3
+     * entries that is full or has one slot left (errors nobody has read yet). What a unit RAISES is then observed through the error callback;
+     * the -350 that replaces an entry in the full queue is the queue's business (C10), not this unit's */
+    { int qcap = (idx % 5 == 4) ? 1 + (int) vh_below(rng, 3) : 8;
+      v = vh_ctx_new(cmds, 4200, qcap, 128); v->log_enabled = 0; v->sigs = &sig; v->nsigs = 1;
+      if (idx % 5 == 4) { int k = qcap - (int) vh_below(rng, 2); prefilled = 1; while (k-- > 0) SCPI_ErrorPush(v->ctx, -310); vh_ctx_clear_capture(v); vh_count("history.error_queue_full_or_nearly_full_before_the_unit", 1); } }
     if (active_tab) { v->ctx->units = units_b; vh_count("units.application_table", 1); }
     /* a client that disconnected in mid-message left complete units and a partial one pending; the application discards them (device clear) */
     if (idx % 7 == 3) { static const char pend[] = "NOOP;CMD 1,2;NO"; vh_input(v, pend, 1 + vh_below(rng, sizeof pend - 1)); vh_device_clear(v); vh_ctx_clear_capture(v); vh_count("history.pending_input_discarded_by_the_application", 1); }
@@ -305,6 +310,7 @@ static void p0_run(uint64_t idx, vh_rng_t * rng) {
       ret = vh_deliver(v, msg.p, msg.len, termlen, how); }
     vh_eval(1);
     inv = v->ninv ? &v->inv[0] : NULL;
+    if (prefilled) { int r2, w2 = 0; for (r2 = 0; r2 < v->nerrs; r2++) if (v->errs[r2] != -350) v->errs[w2++] = v->errs[r2]; v->nerrs = w2; }
 
     if (v->ninv != 1) {
         snprintf(key, sizeof key, "C05:well-formed-unit-not-executed%s", q);
@@ -548,7 +554,7 @@ int main(int argc, char ** argv) {
     vh_require("items.number_token_of_256_or_more_characters"); vh_require("items.number_token_of_64_to_255_characters"); vh_require("clause.error-109"); vh_require("history.pending_input_discarded_by_the_application"); vh_require("clause.error-108"); vh_require("clause.error-104"); vh_require("clause.error-138"); vh_require("clause.error-131");
     vh_require("clause.error-224"); vh_require("clause.error-200"); vh_require("clause.optional_absent_silent"); vh_require("clause.item_delivered_whole");
     vh_require("clause.no_error"); vh_require("clause.malformed_gets_command_error"); vh_require("clause.return_true"); vh_require("clause.return_false");
-    vh_require("clause.return_false_on_overrun"); vh_require("ws.after_item"); vh_require("clause.multi_unit_two_or_more_errors");
+    vh_require("clause.return_false_on_overrun"); vh_require("ws.after_item"); vh_require("history.error_queue_full_or_nearly_full_before_the_unit"); vh_require("clause.multi_unit_two_or_more_errors");
     vh_require("units.application_table"); vh_require("clause.array_all_delivered"); vh_require("clause.array_missing_mandatory");
     return vh_main(argc, argv, "C05", phases, 5);
 }
